@@ -404,6 +404,10 @@ where
                             if pr.cookie.is_empty() {
                                 break;
                             }
+                            let cookie = pr.cookie;
+                            // The search goes on: the result of this page is not the result of
+                            // the search, whatever happens to the next page.
+                            stream.res = None;
                             let ldap_ref = self.ldap.as_ref().expect("ldap_ref");
                             let mut ldap = ldap_ref.clone();
                             ldap.timeout = ldap_ref.timeout;
@@ -412,7 +416,7 @@ where
                             controls.push(
                                 controls::PagedResults {
                                     size: self.page_size,
-                                    cookie: pr.cookie.clone(),
+                                    cookie,
                                 }
                                 .into(),
                             );
